@@ -83,6 +83,8 @@ ASSUMPTIONS = [
     "cli.main() rescans sys.path for torchtree_* plug-in packages and rebuilds the argument parsers of all four "
     "sub-commands at every call; none is installed, so the harness lets the scan happen once per process, and it only "
     "lets the parser of the sub-command in use be built (the 'executables' sub-check compares with the real program)",
+    "a list-valued --elbo_samples / --grad_samples 'N,K' is not combined with --K_elbo_samples / --K_grad_samples > 1 "
+    "(two spellings of the same request)",
     "not generated: --engine and plug-ins (external packages), --init_fullrank (needs a checkpoint of a previous "
     "run), NEXUS tree files",
 ]
@@ -610,9 +612,13 @@ def zblocks_of(cmd, dic, alg):
             return None
         for leaf in leaves_of(q, []):
             x = getattr(leaf, "x", None)
-            if x is None or not hasattr(x, "tensor"):
+            if isinstance(x, (list, tuple)) and all(hasattr(e, "tensor") for e in x):
+                for e in x:
+                    add(e)
+            elif x is None or not hasattr(x, "tensor"):
                 return None
-            add(x)
+            else:
+                add(x)
     return blocks
 
 
@@ -1027,7 +1033,9 @@ def eval_config(cmd, opts, data, res, case):
         gs, ok = try_("grad", res, tags, grads)
         if not ok:
             return out
-        bad = [getattr(b, "id", "?") for b, g in zip(blocks, gs) if g is None or not bool(torch.isfinite(g).all())]
+        if any(g is None for g in gs):
+            count("grad_independent_parameter")  # the target does not depend on it: nothing to be non-finite
+        bad = [getattr(b, "id", "?") for b, g in zip(blocks, gs) if g is not None and not bool(torch.isfinite(g).all())]
         if bad:
             res.fail("nonfinite:grad", {"argv": tags["_argv"], "parameters": bad}, **ftags)
             return out
@@ -1054,7 +1062,9 @@ def eval_config(cmd, opts, data, res, case):
         if not bool(torch.isfinite(v).all()):
             res.fail("nonfinite:objective", {"argv": tags["_argv"], "value": float(v.detach().sum())}, **ftags)
             return out
-        bad = [getattr(p, "id", "?") for p, g in zip(ps, gs) if g is None or not bool(torch.isfinite(g).all())]
+        if any(g is None for g in gs):
+            count("grad_independent_parameter")
+        bad = [getattr(p, "id", "?") for p, g in zip(ps, gs) if g is not None and not bool(torch.isfinite(g).all())]
         if bad:
             res.fail("nonfinite:grad", {"argv": tags["_argv"], "parameters": bad}, **ftags)
             return out
@@ -1339,6 +1349,11 @@ def pairwise_case(draw, cmds=None):
         put("grad_samples", st.sampled_from(["2", "2,2"]), 6)
         put("K_grad_samples", st.sampled_from([2, 1, 3]), 6)
         put("K_elbo_samples", st.sampled_from([2, 1]), 6)
+        # "N,K" and --K_*_samples K spell the same thing; they are not combined
+        if o.get("K_grad_samples", 1) > 1 and "," in str(o.get("grad_samples", "")):
+            o["grad_samples"] = "2"
+        if o.get("K_elbo_samples", 1) > 1 and "," in str(o.get("elbo_samples", "")):
+            o["elbo_samples"] = "3"
         put("iter", st.sampled_from([2, 0]), 8)
         put("samples", st.sampled_from([1, 0]), 8)
         put("lr", logu(1e-3, 1.0), 8)
